@@ -8,7 +8,7 @@ func New{{ .VarName }}(s {{ .ServiceVarName }}) *{{ .VarName }} {
 {{- end }}
 	return &{{ .VarName }}{
 {{- range .Methods }}
-		{{ .VarName }}: New{{ .VarName }}Endpoint(s{{ range .Schemes }}, a.{{ .Type }}Auth{{ end }}),
+		{{ .VarName }}: New{{ .VarName }}Endpoint(s{{ range .Schemes.DedupeByType }}, a.{{ .Type }}Auth{{ end }}),
 {{- end }}
 	}
 }
